@@ -8,3 +8,4 @@ import TV.Properties.C01
 #print axioms TV.C01.C01_get_absent
 #print axioms TV.C01.C01_present_is_latest
 #print axioms TV.C01.C01_views_agree
+#print axioms TV.C01.C01_monitor_views
